@@ -1,0 +1,31 @@
+//go:build verif
+
+package disk
+
+// Accessors on a whole disk cache for the verification harness (build tag "verif").
+
+// VerifCacheSnapshot returns the index state of a cache created by New.
+func VerifCacheSnapshot(c Cache) VerifSnapshot {
+	dc := verifDiskCache(c)
+	dc.mu.Lock()
+	defer dc.mu.Unlock()
+	return verifSnapshot(&dc.lru)
+}
+
+// VerifQueuedBytes returns queuedEvictionsSize without taking the lock.
+func VerifQueuedBytes(c Cache) int64 {
+	return verifDiskCache(c).lru.queuedEvictionsSize.Load()
+}
+
+// VerifDir returns the resolved cache directory.
+func VerifDir(c Cache) string { return verifDiskCache(c).dir }
+
+func verifDiskCache(c Cache) *diskCache {
+	switch x := c.(type) {
+	case *diskCache:
+		return x
+	case *metricsDecorator:
+		return x.diskCache
+	}
+	panic("unexpected Cache implementation")
+}
